@@ -15,6 +15,7 @@ EXPLANATION = (
     'writes nothing but level; (5) contained elements append their parent\'s attributes. Decides these clauses on all paths, not the exact set '
     'of silenced lints for particular programs.')
 THOROUGH_RERUN = ['release']     # the same rules over the release build (no debug assertions): verified clean on the pinned tree
+WITNESSES = ['DiagnosticLevelsAreNotWritable']     # thorough tier: engines/witness (T12)
 ASSUMPTIONS = ['rustc type checking and MIR construction', 'clap applies ignore_case as declared']
 LINT = 'slicec::diagnostics::lints::Lint'
 NO_SCOPE_LINTS = {'DuplicateFile': 'a command-line level lint about the file list: there is no element to attach it to'}
